@@ -108,6 +108,7 @@ func genCompare(args []string) error {
 	}
 	n, tol, tolDiff, gendiff, specdiff := 0, 0, 0, 0, 0
 	seenSym := map[string]bool{}
+	hangs := map[string]int{}
 	for sc.Scan() {
 		p := strings.SplitN(sc.Text(), "|", 4)
 		if len(p) != 4 {
@@ -141,8 +142,14 @@ func genCompare(args []string) error {
 		}
 		in := raw.decodeInput(p[1])
 		n++
+		if hangs[p[0]] >= 2 {
+			continue
+		}
 		rr := runLexer(rt, symbolNames(rt), in, extra, "f.txt")
 		gr := runLexer(gen, symbolNames(gen), in, extra, "f.txt")
+		if rr == "HANG" || gr == "HANG" {
+			hangs[p[0]]++
+		}
 		if p[3] == "TOLERATED" {
 			tol++
 			if rr != gr {
